@@ -178,3 +178,55 @@ Proof.
   - destruct (copy_all fs (filter (keep_entry fs ck) (firstn k1 cur) ++ skipn k1 cur) (firstn k2 ck)) as [[fs1 d1] ok] eqn:E.
     destruct (copy_all_keeps_wf _ _ _ _ _ _ Hok Hnd1 E) as [A [B C]]. now apply Hmain.
 Qed.
+
+(* ---------- a transfer that fails without a crash ---------- *)
+
+(* the copy command failed midway and the process lives on: the directory stays marked, so it is
+   refused whatever the engine makes of it *)
+Theorem failed_fetch_keeps_marker opens_partial v s :
+  let s' := fetch_run v FFailed s in
+  cs_marked s' = true /\ backup_ok opens_partial s' = false.
+Proof. cbn. unfold backup_ok. cbn. auto. Qed.
+
+(* hence the next PrepareSnapshot does not take the shortcut "already there": it transfers again,
+   and when that transfer succeeds the directory holds the source's checkpoint; a Restore in
+   between is refused. For every sequence of failed / crashed attempts before the successful one. *)
+Lemma fetch_attempt_safe v o s : slot_safe s -> slot_safe (fetch_run v o s).
+Proof.
+  intros Hs. destruct o as [| |k]; cbn [fetch_run].
+  - change (fetch_steps v) with (firstn 4 (fetch_steps v)). now apply fetch_crash_safe.
+  - change [WMark; WPartial] with (firstn 2 (fetch_steps v)). now apply fetch_crash_safe.
+  - now apply fetch_crash_safe.
+Qed.
+
+Lemma prepare_safe op v o s : slot_safe s -> slot_safe (prepare op v o s).
+Proof. intros Hs. unfold prepare. destruct (backup_ok op s); [exact Hs|now apply fetch_attempt_safe]. Qed.
+
+Theorem repeated_prepare_never_restores_garbage op garbage v (attempts : list fetch_outcome) s :
+  slot_safe s ->
+  let s' := fold_left (fun st o => prepare op v o st) attempts s in
+  backup_ok op s' = true -> exists w, cs_dir s' = DComplete w /\ restored_content garbage s' = w.
+Proof.
+  intros Hs. cbv zeta.
+  assert (Hsafe : slot_safe (fold_left (fun st o => prepare op v o st) attempts s)).
+  { revert s Hs. induction attempts as [|o l IH]; intros s Hs; [exact Hs|]. cbn. apply IH. now apply prepare_safe. }
+  intros H. destruct (accepted_is_complete _ _ Hsafe H) as [w Hw].
+  exists w. split; [exact Hw|]. unfold restored_content. now rewrite Hw.
+Qed.
+
+(* after a failed attempt on an absent directory the successful retry really transfers (no shortcut)
+   and ends with the source's content *)
+Theorem failed_then_ok_fetches_again op v :
+  let s1 := prepare op v FFailed {| cs_dir := DAbsent; cs_marked := false |} in
+  let s2 := prepare op v FOk s1 in
+  backup_ok op s1 = false /\ cs_dir s2 = DComplete v /\ backup_ok op s2 = true.
+Proof. cbn. unfold backup_ok, prepare. cbn. auto. Qed.
+
+(* clearing the marker when the transfer is over, whether or not it succeeded: the half directory
+   of a failed transfer passes for a backup, the retry takes the shortcut and Restore brings back garbage *)
+Theorem unmark_on_failure_refuted :
+  exists v garbage,
+    let s1 := fetch_run_unmark_always v FFailed {| cs_dir := DAbsent; cs_marked := false |} in
+    let s2 := prepare true v FOk s1 in
+    backup_ok true s1 = true /\ s2 = s1 /\ restored_content garbage s2 <> v.
+Proof. exists 1, 2. cbn. unfold prepare, backup_ok. cbn. repeat split. discriminate. Qed.
